@@ -12,6 +12,7 @@ import Sourcer.Proofs.TransformProofs
 import Sourcer.Proofs.ModulesProofs
 import Sourcer.Syntax
 import Sourcer.Proofs.EnvProofs
+import Sourcer.Proofs.OpShape
 /-
   Property theorems (statements only; proofs are one-liners over Sourcer/Proofs/*).
   Every theorem is followed by an `example` showing its hypotheses are met by a concrete,
@@ -104,6 +105,58 @@ theorem C01_longest_first_on_ties (P : Program) (inp : List Nat) (fuel : Nat) (a
 
 example : peg exP [97, 98] 4 (.str [97] false) 0 = some (.ok (.str [97]) 1) ∧
     peg exP [97, 98] 4 (.ref 0) 0 = some (.ok (.str [98]) 2) := ⟨by rfl, by rfl⟩
+
+/-! ## C02 – operator tables
+
+  `gen` contains the emitted shunting-yard loop; `C01_codegen_refines_peg` (which covers
+  `.optable`) says it computes what the operational specification `pegOT` computes.  The theorems
+  here say what that is, declaratively. -/
+
+/-- **C02.**  What a table returns is the value of a *well-shaped* tree - operators of earlier
+    rows bind tighter, `left`/`right` rows group to their side, a non-associative operator has none
+    of its own row on either side, prefix and postfix operators attach according to their row
+    (`WellShaped`) - and reading its operands and operators in order gives a sequence that the
+    sub-parsers accept consecutively from the start of the expression to the end position that is
+    returned (`Trace`): exactly the occurrences consumed, ending with a complete operand (an
+    operator that is not followed by an operand is not part of it). -/
+theorem C02_tree_well_shaped_and_yield (P : Program) (inp : List Nat) (fuel : Nat)
+    (pre : List Expr) (operand : Expr) (mixfix post inf : List Expr) (p : Nat) (v : Val) (pe : Nat)
+    (htag : tableTaggedB pre inf = true)
+    (h : peg P inp (fuel + 1) (.optable pre operand mixfix post inf) p = some (.ok v pe)) :
+    ∃ tree : OTree, v = tree.toVal ∧ WellShaped tree ∧
+      Trace (peg P inp fuel) (ptableExprs pre operand mixfix post inf) p tree.yield pe := by
+  simp only [peg] at h
+  exact pegOT_result_shaped _ _ (tagged_of_check P inp fuel pre operand mixfix post inf htag) fuel p v pe h
+
+/-- the same for the code model: the emitted loop returns that value and that end position -/
+theorem C02_generated_code_builds_that_tree {F : FlagTable} (hF : LocallySound F) (P : Program) (inp : List Nat)
+    (fuel : Nat) (pre : List Expr) (operand : Expr) (mixfix post inf : List Expr) (p : Nat) (v : Val) (pe : Nat)
+    (htag : tableTaggedB pre inf = true)
+    (h : peg P inp (fuel + 1) (.optable pre operand mixfix post inf) p = some (.ok v pe)) :
+    (∃ r, gen F P inp (fuel + 1) (.optable pre operand mixfix post inf) p = some r ∧ Rel r (.ok v pe)) ∧
+    ∃ tree : OTree, v = tree.toVal ∧ WellShaped tree ∧
+      Trace (peg P inp fuel) (ptableExprs pre operand mixfix post inf) p tree.yield pe :=
+  ⟨gen_refines hF P inp (fuel + 1) _ p _ h, C02_tree_well_shaped_and_yield P inp fuel pre operand mixfix post inf p v pe htag h⟩
+
+/-- the reductions that the loop performs never lose or reorder an occurrence: the final pops
+    of a consistent stack give one tree whose reading is the reading of the stacks -/
+theorem C02_reductions_preserve_order (ops : List OpEntry) (t : OTree) (rest : List OTree) (h : CInv ops t rest) :
+    ∃ T, popAll ops (t :: rest) = some [T] ∧ WellShaped T ∧ T.yield = yieldBelow ops rest ++ t.yield :=
+  popAll_spec ops t rest h
+
+namespace C02Example
+/-- `"1" between { left: "*"; left: "+" }`: `*` (row 0) binds tighter than `+` (row 1) -/
+def table : Expr :=
+  .optable [] (.str [49] false) [] []
+    [.tagged (.str [42] false) [0, 1], .tagged (.str [43] false) [1, 1]]
+def prog : Program := { rules := [], ignored := none, matcher := fun _ _ _ => none, bytesMode := false }
+end C02Example
+
+-- non-vacuity: `1+1*1+` gives `(1 + (1 * 1))` and leaves the dangling `+` unconsumed (end position 5)
+example : tableTaggedB [] [.tagged (.str [42] false) [0, 1], .tagged (.str [43] false) [1, 1]] = true ∧
+    peg C02Example.prog [49, 43, 49, 42, 49, 43] 40 C02Example.table 0 =
+      some (.ok (mkInfix (.str [49]) (.str [43]) (mkInfix (.str [49]) (.str [42]) (.str [49]))) 5) := by
+  refine ⟨by decide, by rfl⟩
 
 /-! ## C03 – bounded repetition and separated lists (clauses spelled out by the property) -/
 
